@@ -193,9 +193,13 @@ def replay(prop, job, files, h):
     script = os.path.join(keep, "replay.sh")
     open(script, "w").write(
         "#!/bin/sh\n# native replay of a solver counterexample against the real code\n"
-        "cd %s && GOFLAGS=-mod=mod GOPROXY=off GOSUMDB=off GOTOOLCHAIN=local VERIF_MODEL=%s VERIF_HARNESS=%s "
+        "cd %s && GOFLAGS=-mod=mod GOPROXY=off GOSUMDB=off GOTOOLCHAIN=local VERIF_MODEL=%s VERIF_HARNESS=%s VERIF_DEFAULT=%s "
         "go test -count=1 -vet=off -tags=%s -overlay %s -run '^TestVerifReplay$' -v ./%s\n"
-        % (REPO, os.path.join(keep, "model.json"), h["name"], job.tags, os.path.join(keep, "overlay.json"), job.pkg))
+        % (REPO, os.path.join(keep, "model.json"), h["name"],
+           # a frame violation does not depend on the values: inputs the model leaves open get distinct non-zero defaults,
+           # so that an in-place update is visible (x*0 = 0 would hide it)
+           "nonzero" if (h.get("violated") or {}).get("kind") == "frame" else "zero",
+           job.tags, os.path.join(keep, "overlay.json"), job.pkg))
     os.chmod(script, 0o755)
     try:
         p = subprocess.run(["sh", script], stdout=subprocess.PIPE, stderr=subprocess.STDOUT, text=True, timeout=900)
@@ -207,6 +211,10 @@ def replay(prop, job, files, h):
     if v.get("kind") == "assert":
         m = re.search(r"VERIF-REPLAY: assertion failed: \[(.*)\]", out)
         reproduced = bool(m) and v.get("id", "") in m.group(1)
+    elif v.get("kind") == "frame":
+        # a write to a read-only object: natively the object differs from its snapshot at the end of the harness
+        m = re.search(r"VERIF-REPLAY: assertion failed: \[(.*)\]", out)
+        reproduced = bool(m) and "frame: a read-only object was modified" in m.group(1)
     else:
         reproduced = "VERIF-REPLAY: panic" in out
     return reproduced, script, out
